@@ -74,6 +74,10 @@ func (gr *groupsRun) exec(stmts []*Sx) {
 		case "combo":
 			c := f.Combo(a[0].Bytes(), gr.handlers(a[1])...)
 			for _, u := range a[2:] {
+				if u.Tag() == "autohead" { // the ComboRoute is held while the setting changes
+					f.AutoHead(u.Args()[0].Atom == "1")
+					continue
+				}
 				hs := gr.handlers(u.Args()[1])
 				switch u.Args()[0].Atom {
 				case "GET":
@@ -291,6 +295,9 @@ func (g *groupsGen) stmts(depth int, prefix string, n int) []*Sx {
 					continue
 				}
 				used[m] = true
+				if rng.Intn(3) == 0 { // AutoHead toggled between Combo(...) and the method call
+					uses = append(uses, T("autohead", B(rng.Intn(2) == 0)))
+				}
 				uses = append(uses, T("use", A(m), g.hs(2)))
 			}
 			out = append(out, T("combo", append([]*Sx{X(path), g.hs(2)}, uses...)...))
